@@ -96,10 +96,13 @@ func init() {
 	register("proj", func(n int) {
 		for i := 0; i < n; i++ {
 			crs := codes[rng.Intn(len(codes))]
-			k := 1 + rng.Intn(3)
+			k := 1 + rng.Intn(5)
 			if rng.Intn(10) == 0 {
 				k = 0
 			}
+			// repeated horizontal positions (vertical segments, closed paths): some elements reuse the position of an
+			// earlier element of the same list, with their own altitude
+			var prevLon, prevLat, prevX, prevY []float64
 			switch rng.Intn(3) {
 			case 0, 1: // forward
 				var items []string
@@ -112,6 +115,13 @@ func init() {
 					case 1:
 						alt = 0
 					}
+					if len(prevLon) > 0 && rng.Intn(3) == 0 {
+						r := len(prevLon) - 1
+						if rng.Intn(3) == 0 {
+							r = rng.Intn(len(prevLon))
+						}
+						lon, lat = prevLon[r], prevLat[r]
+					}
 					p, _ := object.NewPoint(lon, lat, alt)
 					for { // a latitude that NewPoint stores unchanged (SetLat is not idempotent, D17): redraw until stable
 						q, _ := object.NewPoint(p.Lon(), p.Lat(), p.Alt())
@@ -120,6 +130,7 @@ func init() {
 						}
 						p, _ = object.NewPoint(lon, rng.Float64()*170-85, alt)
 					}
+					prevLon, prevLat = append(prevLon, p.Lon()), append(prevLat, p.Lat())
 					x, y, ok := projOracle(p.Lon(), p.Lat(), p.Alt(), crs, true)
 					o := "E:E"
 					if ok {
@@ -137,6 +148,14 @@ func init() {
 					if !ok {
 						x, y = rng.Float64()*1e6, rng.Float64()*1e6
 					}
+					if len(prevX) > 0 && rng.Intn(3) == 0 {
+						r := len(prevX) - 1
+						if rng.Intn(3) == 0 {
+							r = rng.Intn(len(prevX))
+						}
+						x, y = prevX[r], prevY[r]
+					}
+					prevX, prevY = append(prevX, x), append(prevY, y)
 					lo, la, ok2 := projOracle(x, y, alt, crs, false)
 					o := "E:E"
 					if ok2 {
